@@ -273,6 +273,12 @@ func (r *Result) Finish(verifDir string, known []KnownFinding, seed int64, wall 
 	for k, v := range r.Extra {
 		cov[k] = v
 	}
+	if r.Assumptions == nil {
+		r.Assumptions = []string{}
+	}
+	if r.NotDecided == nil {
+		r.NotDecided = []string{}
+	}
 	ev := map[string]interface{}{
 		"property_id": r.Property,
 		"tier":        r.Tier,
